@@ -24,10 +24,11 @@ func init() {
 		ID: "C25",
 		Explanation: "Decides structural necessary conditions of exact set algebra and closure: DTX(setalg): container.Merge/Intersect are evaluated abstractly for all 16 (Inverse, empty) operand states and the symbolic result (helper, operand order, polarity) equals A∪B / A∩B on every pair of subsets of a 3-element universe; Complement flips only the polarity. MINMAX(update): the low-link updates of graph.Tarjan (which orders the closure) compare against the cell they update. " +
 			"ALIAS: at every call that fills a caller-supplied scratch buffer (p[:0] idiom, found by summary) no other operand may share storage with the buffer (field-based may-alias with reaching stores). GUARD(complcycle): an error is recorded exactly under op==complement ∧ onStack(operand), and Compute returns it. " +
-			"Not decided: the merge loops of combine/intersect/subtract, the least-fixpoint property, Tarjan itself. INPLACE(write-behind-read): the in-place merge loops of util/container and util/diff never append past their read cursor. KEYCOPY: interning containers store a copy of the key slice.",
-		Rules: []string{"DTX(setalg)", "ALIAS", "GUARD(complcycle)", "MINMAX(update)", "INPLACE(write-behind-read)", "GUARD(unionclone)", "KEYCOPY"},
+			"Not decided: the merge loops of combine/intersect/subtract, the least-fixpoint property, Tarjan itself. INPLACE(write-behind-read): the in-place merge loops of util/container and util/diff never append past their read cursor. KEYCOPY: interning containers store a copy of the key slice. SIBLING(tarjan-update): both Tarjan implementations propagate lowLink[child] after the descent.",
+		Rules: []string{"DTX(setalg)", "ALIAS", "GUARD(complcycle)", "MINMAX(update)", "INPLACE(write-behind-read)", "GUARD(unionclone)", "KEYCOPY", "SIBLING(tarjan-update)"},
 		Run: func(c *Ctx) {
 			ruleMINMAX(c, "util/graph", "util/set")
+			ruleTARJANSIB(c)
 			c.MinCount("MINMAX(update)", "util/graph.", 2)
 			ruleSETALG(c)
 			ruleSETEQ(c)
@@ -403,10 +404,11 @@ func init() {
 	register(&Property{
 		ID: "C21",
 		Explanation: "Decides, for the shipped typed ASTs (js, tm; parsers/test/ast is a stale directory that test.tm no longer generates), that no accessor's type assertion can fail and the node factory is total: EXHAUST: the factory switch has a case for every NodeType constant. IMPL: for every accessor, every node type admitted by the last selector of its navigation chain (categories expanded through the generated category lists) and NilNode implement the asserted interface (go/types.Implements), and struct wrappers T{child} are used only with single-type selectors equal to T. " +
-			"TMPL(step-scope): the template emits each chain step's selector name from the step itself. Not decided: other grammars (type inference in syntax/types.go is algorithmic), 'every child is reachable through an accessor'. PAIR(save-restore): typeCollector.nontermPhrase reads c.referrer after the descent only behind the store that restores it (the low-link of a cycle reaches the entry nonterminal, whose fields become lists). FIELDCOV(minimize): every component of the rule-class key, node type and flags included, is filled on every path (states reporting different node types are not merged).",
-		Rules: []string{"EXHAUST", "IMPL", "TMPL(step-scope)", "FIELDCOV(minimize)", "PAIR(save-restore)"},
+			"TMPL(step-scope): the template emits each chain step's selector name from the step itself. Not decided: other grammars (type inference in syntax/types.go is algorithmic), 'every child is reachable through an accessor'. PAIR(save-restore): typeCollector.nontermPhrase reads c.referrer after the descent only behind the store that restores it (the low-link of a cycle reaches the entry nonterminal, whose fields become lists). FIELDCOV(minimize): every component of the rule-class key, node type and flags included, is filled on every path (states reporting different node types are not merged). SIBLING(tarjan-update): the low-link update after the recursive descent of the type collector's embedded Tarjan propagates lowLink[child], as util/graph's does.",
+		Rules: []string{"EXHAUST", "IMPL", "TMPL(step-scope)", "FIELDCOV(minimize)", "PAIR(save-restore)", "SIBLING(tarjan-update)"},
 		Run: func(c *Ctx) {
 			ruleSAVERESTORE(c, "syntax", "compiler", "gen", "grammar")
+			ruleTARJANSIB(c)
 			ruleMINIMIZE(c)
 			ruleTYPEDAST(c)
 			ruleTMPLSTEPSCOPE(c)
